@@ -26,21 +26,25 @@ def _add(a: Poly, b: Poly, sign=1) -> Poly:
     return {m: c for m, c in out.items() if c != 0}
 
 
-def poly(e: ast.AST, atom=None) -> Poly:
+def poly(e: ast.AST, atom=None, _canon=True) -> Poly:
     atom = atom or (lambda x: U(x))
+    if _canon:
+        from .core import canon_ast
+        e = canon_ast(e)  # torch.mul / torch.neg / x.sub(y) ... are the operators
+        return poly(e, atom, False)
     if isinstance(e, ast.Constant) and isinstance(e.value, (int, float)) and not isinstance(e.value, bool):
         return {(): Fraction(e.value).limit_denominator(10**9)} if e.value != 0 else {}
     if isinstance(e, ast.BinOp):
         if isinstance(e.op, ast.Add):
-            return _add(poly(e.left, atom), poly(e.right, atom))
+            return _add(poly(e.left, atom, False), poly(e.right, atom, False))
         if isinstance(e.op, ast.Sub):
-            return _add(poly(e.left, atom), poly(e.right, atom), -1)
+            return _add(poly(e.left, atom, False), poly(e.right, atom, False), -1)
         if isinstance(e.op, ast.Mult):
-            return _mul(poly(e.left, atom), poly(e.right, atom))
+            return _mul(poly(e.left, atom, False), poly(e.right, atom, False))
     if isinstance(e, ast.UnaryOp) and isinstance(e.op, ast.USub):
-        return _add({}, poly(e.operand, atom), -1)
+        return _add({}, poly(e.operand, atom, False), -1)
     if isinstance(e, ast.UnaryOp) and isinstance(e.op, ast.UAdd):
-        return poly(e.operand, atom)
+        return poly(e.operand, atom, False)
     if isinstance(e, ast.Call) and isinstance(e.func, ast.Attribute) and U(e.func.value) == "torch" and len(e.args) == 2 and not e.keywords:
         if e.func.attr in ("add",):
             return _add(poly(e.args[0], atom), poly(e.args[1], atom))
